@@ -65,12 +65,21 @@ CANARY = ("{| n_fields := []; n_name := [69]%N; n_msg := []; n_src := []; "
           "n_heads := [[]]; n_bheads := [[]]; n_suffix_ok := [true]; n_fvals := [[]] |}")
 
 
+_DEFS = {}   # farm struct definitions of the current run (for reports)
+
+
 def struct_source(d):
     """Go source of a farm struct, for failing-input reports"""
-    lines = ["type %s struct {" % d["name"], "\tgerror.GError"]
-    for f in d["fields"]:
+    lines = ["type %s struct {" % d["name"]]
+    bp = d.get("base_pos") or 0
+    fields = d.get("fields") or []
+    for fi, f in enumerate(fields):
+        if fi == bp:
+            lines.append("\tgerror.GError")
         decl = f["type"] if f.get("embedded") else "%s %s" % (f["name"], f["type"])
         lines.append("\t%s%s" % (decl, (" `%s`" % f["tag"]) if f["tag"] else ""))
+    if bp >= len(fields):
+        lines.append("\tgerror.GError")
     lines.append("}" + ("   // generated with -skipConvertGen" if d.get("skip") else ""))
     return "\n".join(lines)
 
@@ -278,11 +287,12 @@ def judge_and_report(ctx, rp, binp, terms, jsons, quick, tag, seen, only_v1=Fals
         seen.add(key)
         if code == 1:
             j = minimise(ctx, binp, j, code)
-            j = dict(j, struct=struct_source({"name": j["type"], "fields": j["fields"], "skip": j.get("skip")}))
+            j = dict(j, struct=struct_source({"name": j["type"], "fields": j["fields"], "skip": j.get("skip"),
+                                              "base_pos": (_DEFS.get(j["type"]) or {}).get("base_pos")}))
             rep = {"case": j,
                    "verdict": "generated method's result differs from the base method's, or clone/print law violated",
                    "replay_cmd": "./check C09 --replay <this file>"}
-            if rp.failing(rep, features(j, code)) == "violation" and j["type"][0] in "GKOHRE":
+            if rp.failing(rep, features(j, code)) == "violation" and j["type"][0] in "GKOHREP":
                 # only replayable on farms that contain the struct: keep fixed-farm structs only
                 gl.write_corpus_hit("C09", {k: j[k] for k in ("type", "name", "msg", "src", "steps")})
         elif not only_v1 and len(rp.pending) < 8:
@@ -308,6 +318,7 @@ def run(ctx):
         rp.defer("generator farm: CLI run / build of generated code against the current tree", err, "build")
         rp.flush()
         return
+    _DEFS.update(farm.get("defs") or {})
     for what, detail in ties(ctx, farm) + desc_ties(ctx, farm):
         rp.defer("tie T: " + what, detail, "tie")
     binp = farm["bin"]
@@ -337,6 +348,23 @@ def run(ctx):
         rp.defer("harness run", err, "harness")
         rp.flush()
         return
+    # Factory methods outside the 19 the model knows, probed by reflection on every farm struct
+    try:
+        extra = json.load(open(os.path.join(ctx.scratch, "cases_all.extra.json"))) or []
+    except (OSError, ValueError):
+        extra = []
+    ctx.cov["unknown_factory_methods_probed"] = sorted({e["method"] for e in extra})
+    shown = set()
+    for e in extra:
+        if e.get("bad") and e["method"] not in shown and len(shown) < 2:
+            shown.add(e["method"])
+            d = farm["defs"].get(e["type"], {"name": e["type"], "fields": []})
+            rp.failing({"case": dict(e, struct=struct_source(d)),
+                        "verdict": "a Factory method outside the 19 the template has a stanza for: on the generated extension type it does "
+                                   "not produce an error of that type / with the fields the same method produces on a plain GError",
+                        "replay_cmd": "./check C09 --tier %s" % ctx.tier},
+                       {"kind": "unknown_method", "law": "fields", "code": 1, "method": e["method"], "differs": "type" if e["generated_result_type"] != e["factory_type"] else "view",
+                        "panic": bool(e.get("panic")), "percent_in_print_name": False, "skip_convert_gen": d.get("skip")})
     seen = set()
     bad, nt_coq = judge_and_report(ctx, rp, binp, terms, jsons, quick, "cases", seen)
     if bad is None:
